@@ -233,13 +233,19 @@ func verif_lemma_ip4_roundtrip(p []byte, ttl byte, src, dst netip.Addr, payload 
 
 //verif:props C03
 func verif_contract_EncodeIP6(p []byte, hopLimit uint8, srcIP netip.Addr, dstIP netip.Addr) IP6 {
-	vRequires(cap(p) >= 40 && srcIP.Is6() && dstIP.Is6())
+	vRequires(cap(p) >= 40)
 	vCanary()
 	vModifiesBytes(p[:40])
 	r := EncodeIP6(p, hopLimit, srcIP, dstIP)
 	vEnsures(len(r) == 40 && cap(r) == cap(p) && vSameRegion(r, p) && vOffset(r, p) == 0)
 	vEnsures(r[0] == 0x60 && r[7] == hopLimit && spec_be16(r, 4) == 0)
-	vEnsures(spec_ip6_at(r, 8) == srcIP && spec_ip6_at(r, 24) == dstIP)
+	// total for any address value; the address fields carry the arguments when these are IPv6
+	if srcIP.Is6() {
+		vEnsures(spec_ip6_at(r, 8) == srcIP)
+	}
+	if dstIP.Is6() {
+		vEnsures(spec_ip6_at(r, 24) == dstIP)
+	}
 	return r
 }
 
